@@ -117,6 +117,14 @@ if ini:
                 ex = get_reusable_executor(**dict(kw, max_workers=ini["workers"] + 1 + i % 2))
             except BaseException as e:
                 results.append(["resize_exc", type(e).__name__, [c.__name__ for c in type(e).__mro__]])
+    if ini.get("pending_shutdown") and not ini["fail_on"]:
+        fs = [ex.submit(T.whoami, 100 + i) for i in range(ini["pending_shutdown"])]
+        ex.shutdown(wait=True)
+        for f in fs:
+            try:
+                results.append(["ok", f.result(timeout=60)])
+            except BaseException as e:
+                results.append(["exc", type(e).__name__, [c.__name__ for c in type(e).__mro__]])
     broke = None
     if ini["fail_on"] and not (reusable and ini.get("resize_at")):
         # a worker whose initializer failed leaves; once it has, the pool must refuse work with the broken-pool error
@@ -124,8 +132,8 @@ if ini:
         broke = False
         while time.time() - t0 < 8:
             spawns = open(counter).read().split() if os.path.exists(counter) else []
-            if len(spawns) <= min(ini["fail_on"]):
-                break                      # the failing spawn index was never reached
+            if len(spawns) <= min(ini["fail_on"]) and all(str(pid) in spawns for pid in list(ex._processes)):
+                break                      # the failing spawn index was never reached (and no worker is still booting)
             try:
                 ex.submit(T.whoami, -1).result(timeout=60)
             except BaseException as e:
